@@ -41,7 +41,7 @@ def main():
         i = args.index('--also')
         also = args[i + 1].split(',')
         del args[i:i + 2]
-    tags = sorted(d for d in os.listdir(os.path.join(HERE, 'seeded')) if os.path.isdir(os.path.join(HERE, 'seeded', d)))
+    tags = sorted(d for d in os.listdir(os.path.join(HERE, 'seeded')) if os.path.isdir(os.path.join(HERE, 'seeded', d)) and re.match(r'C\d\d-m\d+$', d))
     if args:
         tags = [t for t in tags if any(t.startswith(a) for a in args)]
     def checks_for(t):
